@@ -33,6 +33,13 @@ M = [
     ("mp-liveness-ignores-completed", "nucs/solvers/multiprocessing_solver.py", "                if not completed[proc_idx] and not process.is_alive()", "                if completed[proc_idx] and not process.is_alive()", ["C18"]),
     ("no-stack-check", "nucs/solvers/backtrack_solver.py", "        if stacks_top[0] + 2 >= len(shr_domains_stack):\n", "        if False and stacks_top[0] + 2 >= len(shr_domains_stack):\n", ["C19"]),
     ("stack-check-off-by-some", "nucs/solvers/backtrack_solver.py", "        if stacks_top[0] + 2 >= len(shr_domains_stack):\n", "        if stacks_top[0] >= len(shr_domains_stack):\n", ["C19"]),
+    ("mp-stats-first-message", "nucs/solvers/multiprocessing_solver.py", "            proc_idx, solution, statistics = get_message(solutions, processes, completed)\n            self.statistics[proc_idx] = statistics\n            if solution is None:\n                completed[proc_idx] = True\n                nb -= 1\n            else:\n                yield solution", "            proc_idx, solution, statistics = get_message(solutions, processes, completed)\n            if self.statistics[proc_idx] is None:\n                self.statistics[proc_idx] = statistics\n            if solution is None:\n                completed[proc_idx] = True\n                nb -= 1\n            else:\n                yield solution", ["C11", "C17"]),
+    ("is-solved-ignores-last-domain", "nucs/solvers/solver.py", "np.equal(shr_domains_stack[stacks_top[0], :, MIN], shr_domains_stack[stacks_top[0], :, MAX])", "np.equal(shr_domains_stack[stacks_top[0], :-1, MIN], shr_domains_stack[stacks_top[0], :-1, MAX])", ["C02", "C01"]),
+    ("get-solution-offset-sign", "nucs/solvers/solver.py", "    return shr_domains_stack[stacks_top[0], dom_indices_arr, MIN] + dom_offsets_arr", "    return shr_domains_stack[stacks_top[0], dom_indices_arr, MIN] - dom_offsets_arr", ["C01", "C13"]),
+    ("backtrack-no-wakeup", "nucs/solvers/choice_points.py", "    statistics[STATS_IDX_SOLVER_BACKTRACK_NB] += 1\n    add_propagators(", "    statistics[STATS_IDX_SOLVER_BACKTRACK_NB] += 1\n    if False: add_propagators(", ["C09", "C02"]),
+    ("count-eq-entail-early", "nucs/propagators/count_eq_propagator.py", "    if count_min == count_max:\n        return PROP_ENTAILMENT", "    if count_min + 1 >= count_max:\n        return PROP_ENTAILMENT", ["C07", "C02"]),
+    ("count-eq-weaker", "nucs/propagators/count_eq_propagator.py", "    if count_max == counter[MIN]:  # we cannot have more domains different from a", "    if False and count_max == counter[MIN]:  # we cannot have more domains different from a", ["C14"]),
+    ("max-leq-entail-flip", "nucs/propagators/max_leq_propagator.py", None, None, []),
     ("exactly-eq-entail-early", "nucs/propagators/exactly_eq_propagator.py", None, None, []),
     ("max-regret-first-tie", "nucs/heuristics/max_regret_var_heuristic.py", "    max_regret = -1  #", "    max_regret = 0  #", ["C04"]),
     ("split-capping", "nucs/problems/problem.py", "        split_nb = min(split_nb, shr_dom_sz)  # a domain cannot be split in more parts than it has values\n", "", ["C12"]),
